@@ -2,10 +2,372 @@
 
 package main
 
-import "fmt"
+import (
+	"encoding/json"
+	"fmt"
+	"os"
+	"sort"
+	"strconv"
+	"strings"
+	"sync"
+	"time"
 
-type concCase struct{}
+	"github.com/metal-toolbox/audito-maldito/internal/common"
+	"github.com/metal-toolbox/audito-maldito/internal/verifharness/hutil"
+	"github.com/metal-toolbox/audito-maldito/processors/auditd/sessiontracker"
+)
 
-func concMain(out string, n int, seed uint64) { fmt.Println("conc mode not built yet") }
+// A concurrent case: a few threads, each a short program of correlator calls; one victim
+// thread is paused just before its k-th lock acquisition (hook point) while the other threads
+// run (as far as they can), then it is resumed.
+type concCase struct {
+	Threads [][]HOp `json:"threads"`
+	Victim  int     `json:"victim"`
+	K       int     `json:"pause_before_lock_index"`
+	Order   []int   `json:"order_of_others"`
+}
 
-func replayConc(c concCase) int { return 2 }
+type concOutcome struct {
+	PerSession map[string][]string `json:"emitted_per_session"` // session -> ["login/event", ...] in order
+	Sessions   map[string]string   `json:"sessions"`            // session -> "login|held ids"
+	Parked     map[string]int      `json:"parked"`
+	Results    string              `json:"results"`
+}
+
+func (o concOutcome) key() string {
+	b, _ := json.Marshal(o)
+	return string(b)
+}
+
+type concRunner struct {
+	r      *runner
+	mu     sync.Mutex
+	bounds []time.Time
+}
+
+func newConcRunner(threads [][]HOp) *concRunner {
+	h := History{Budget: -1, Plans: map[string]SessPlan{}}
+	for _, t := range threads {
+		h.Ops = append(h.Ops, t...)
+	}
+	rn := newRunner(h)
+	rn.bounds = []time.Time{tick()}
+	return &concRunner{r: rn}
+}
+
+// the tracker reads time.Now() itself; cut-offs used in concurrent cases are fixed: index 0 =
+// before everything (keeps all), index 1 = far future (discards every pending half)
+func (c *concRunner) cut(i int) time.Time {
+	if i == 0 {
+		return c.r.bounds[0]
+	}
+	return c.r.bounds[0].Add(24 * time.Hour)
+}
+
+func (c *concRunner) do(o HOp) string {
+	switch o.Kind {
+	case "login":
+		c.mu.Lock()
+		l := *o.Login
+		l.AtIdx = 0
+		rul := c.r.mkLogin(&l)
+		c.mu.Unlock()
+		return classify(c.r.tr.RemoteLogin(rul))
+	case "audit":
+		c.mu.Lock()
+		ev := c.r.mkEvent(o.Event)
+		c.mu.Unlock()
+		return classify(c.r.tr.AuditdEvent(ev))
+	case "clean_sess":
+		c.r.tr.DeleteUsersWithoutLoginsBefore(c.cut(o.Cut))
+	case "clean_logins":
+		c.r.tr.DeleteRemoteUserLoginsBefore(c.cut(o.Cut))
+	}
+	return "ok"
+}
+
+func (c *concRunner) outcome(results [][]string) (concOutcome, error) {
+	out := concOutcome{PerSession: map[string][]string{}, Sessions: map[string]string{}, Parked: map[string]int{}}
+	for _, m := range c.r.enc.out {
+		e, err := decodeEmitted(m, 0)
+		if err != nil {
+			return out, err
+		}
+		out.PerSession[e.Ses] = append(out.PerSession[e.Ses], fmt.Sprintf("%d/%d", e.LoginID, e.EventID))
+	}
+	ss, pk := sessiontracker.VerifDump(c.r.tr)
+	for id, u := range ss {
+		lg := -1
+		if u.HasRUL {
+			lg = c.r.logins[u.Login.Source]
+		}
+		var held []string
+		for _, ev := range u.Cached {
+			held = append(held, strconv.Itoa(c.r.events[ev]))
+		}
+		out.Sessions[id] = fmt.Sprintf("%d|%s", lg, strings.Join(held, ","))
+	}
+	for pid, l := range pk {
+		out.Parked[strconv.Itoa(pid)] = c.r.logins[l.Source]
+	}
+	var rs []string
+	for _, r := range results {
+		rs = append(rs, strings.Join(r, ","))
+	}
+	out.Results = strings.Join(rs, ";")
+	return out, nil
+}
+
+// all interleavings of the threads' programs (as sequences of thread indices)
+func interleavings(lens []int) [][]int {
+	var res [][]int
+	var rec func(rem []int, cur []int)
+	rec = func(rem []int, cur []int) {
+		done := true
+		for i, n := range rem {
+			if n > 0 {
+				done = false
+				rem[i]--
+				rec(rem, append(cur, i))
+				rem[i]++
+			}
+		}
+		if done {
+			res = append(res, append([]int{}, cur...))
+		}
+	}
+	rec(append([]int{}, lens...), nil)
+	return res
+}
+
+func sequentialOutcomes(threads [][]HOp) (map[string]bool, error) {
+	lens := make([]int, len(threads))
+	for i, t := range threads {
+		lens[i] = len(t)
+	}
+	set := map[string]bool{}
+	for _, il := range interleavings(lens) {
+		c := newConcRunner(threads)
+		idx := make([]int, len(threads))
+		results := make([][]string, len(threads))
+		for _, t := range il {
+			results[t] = append(results[t], c.do(threads[t][idx[t]]))
+			idx[t]++
+		}
+		o, err := c.outcome(results)
+		if err != nil {
+			return nil, err
+		}
+		set[o.key()] = true
+	}
+	return set, nil
+}
+
+type concResult struct {
+	Outcome        concOutcome `json:"outcome"`
+	Paused         bool        `json:"paused"`
+	OthersFinished []bool      `json:"others_finished_while_victim_paused"`
+	Trace          []string    `json:"victim_lock_trace"`
+	Hung           bool        `json:"hung"`
+}
+
+func runConc(cc concCase) (concResult, error) {
+	var res concResult
+	c := newConcRunner(cc.Threads)
+	ctl := hutil.NewCtl()
+	sm, pm := sessiontracker.VerifMaps(c.r.tr)
+	ctl.Name(sm, "sessions")
+	ctl.Name(pm, "parked")
+	common.VerifHook = ctl.Hook
+	defer func() { common.VerifHook = nil }()
+	results := make([][]string, len(cc.Threads))
+	runThread := func(t int) {
+		for _, o := range cc.Threads[t] {
+			results[t] = append(results[t], c.do(o))
+		}
+	}
+	res.Paused = ctl.StartVictim(func() { runThread(cc.Victim) }, cc.K)
+	var waits []func()
+	if res.Paused {
+		for _, t := range cc.Order {
+			t := t
+			done, wait := hutil.RunTimeout(func() { runThread(t) }, 25*time.Millisecond)
+			res.OthersFinished = append(res.OthersFinished, done)
+			waits = append(waits, wait)
+		}
+		ctl.Resume()
+	}
+	fin := make(chan struct{})
+	go func() {
+		ctl.WaitVictim()
+		for _, w := range waits {
+			w()
+		}
+		if !res.Paused {
+			for _, t := range cc.Order {
+				runThread(t)
+			}
+		}
+		close(fin)
+	}()
+	select {
+	case <-fin:
+	case <-time.After(5 * time.Second):
+		res.Hung = true
+		return res, nil
+	}
+	for _, e := range ctl.ResetTrace() {
+		res.Trace = append(res.Trace, e.Obj+"."+e.Op)
+	}
+	common.VerifHook = nil
+	o, err := c.outcome(results)
+	res.Outcome = o
+	return res, err
+}
+
+// small concurrent programs over one or two sessions
+func genConcPrograms(r *hutil.Rand) [][]HOp {
+	g := &genState{r: r, nextSid: 1, nextPid: 70}
+	pid := 70 + r.Intn(5)
+	sid := strconv.Itoa(1 + r.Intn(3))
+	login := g.login(pid, "")
+	audit := []HOp{g.ev(sid, "LOGIN", strconv.Itoa(pid)), g.ev(sid, hutil.Pick(r, otherTypes), strconv.Itoa(pid+1000))}
+	if r.Chance(1, 3) {
+		audit = append(audit, g.ev(sid, "CRED_DISP", strconv.Itoa(pid)))
+	}
+	threads := [][]HOp{{login}, audit}
+	switch r.Intn(4) {
+	case 0: // another session with its own login, events on a third thread
+		pid2, sid2 := pid+7, strconv.Itoa(9)
+		threads[0] = append(threads[0], g.login(pid2, ""))
+		threads = append(threads, []HOp{g.ev(sid2, "LOGIN", strconv.Itoa(pid2)), g.ev(sid2, hutil.Pick(r, otherTypes), "5")})
+	case 1: // cleanup thread
+		threads = append(threads, []HOp{{Kind: "clean_sess", Cut: r.Intn(2)}, {Kind: "clean_logins", Cut: r.Intn(2)}})
+	case 2: // events of another (uncorrelated) session
+		threads = append(threads, []HOp{g.ev("8", "LOGIN", "999"), g.ev("8", hutil.Pick(r, otherTypes), "5")})
+	}
+	return threads
+}
+
+func opsString(threads [][]HOp) string {
+	var ts []string
+	for i, t := range threads {
+		var os []string
+		for _, o := range t {
+			os = append(os, o.String())
+		}
+		ts = append(ts, fmt.Sprintf("T%d: %s", i, strings.Join(os, "; ")))
+	}
+	return strings.Join(ts, " || ")
+}
+
+func concMain(out string, n int, seed uint64) {
+	r := hutil.NewRand(seed ^ 0xC03)
+	sum := hutil.NewSummary("C03", seed,
+		"small concurrent programs (login || LOGIN record + follow-up events || events of another session or cleanup), 2-3 threads, <= 7 calls; "+
+			"for every victim thread and every lock-acquisition index k of its run the victim is paused there while the other threads run in each order, then resumed "+
+			"(all single-preemption schedules at hook granularity on the REAL correlator); the outcome (events per session in order, with identities; final state; results) must equal "+
+			"the outcome of some sequential interleaving executed on the same implementation; non-trivial = the victim was paused inside a call; distinct by (program, victim, k, order)")
+	progs := 0
+	for progs < n {
+		threads := genConcPrograms(r)
+		progs++
+		seqSet, err := sequentialOutcomes(threads)
+		if err != nil {
+			sum.Fail("harness", "cannot interpret sequential run: "+err.Error(), threads)
+			continue
+		}
+		sum.Dist(fmt.Sprintf("threads_%d", len(threads)))
+		sum.Dist(fmt.Sprintf("sequential_outcomes_%d", len(seqSet)))
+		for victim := range threads {
+			var others []int
+			for t := range threads {
+				if t != victim {
+					others = append(others, t)
+				}
+			}
+			orders := [][]int{others}
+			if len(others) == 2 {
+				orders = append(orders, []int{others[1], others[0]})
+			}
+			for k := 0; k < 10; k++ {
+				stop := false
+				for _, ord := range orders {
+					cc := concCase{Threads: threads, Victim: victim, K: k, Order: ord}
+					res, err := runConc(cc)
+					if err != nil {
+						sum.Fail("harness", "cannot interpret concurrent run: "+err.Error(), map[string]any{"conc": cc})
+						continue
+					}
+					if res.Hung {
+						sum.FailKey("oracle", "conc:deadlock", "deliveries did not complete within 5 s (deadlock): "+opsString(threads),
+							map[string]any{"conc": cc})
+						continue
+					}
+					if !res.Paused {
+						stop = true
+						break
+					}
+					sum.Count(fmt.Sprint(opsString(threads), victim, k, ord), true)
+					sum.Dist(fmt.Sprintf("pause_index_%d", k))
+					if !seqSet[res.Outcome.key()] {
+						sum.FailKey("oracle", "conc:not-linearizable",
+							fmt.Sprintf("%s — victim T%d paused before lock acquisition %d (%v), others run: outcome %s equals no sequential ordering's outcome",
+								opsString(threads), victim, k, res.Trace, res.Outcome.key()),
+							map[string]any{"conc": cc, "observed": res})
+					}
+					for i, f := range res.OthersFinished {
+						if f {
+							// another thread completed a whole program while the victim was inside a call:
+							// the call is not a critical section of one correlator-wide mutex (model: locked = true)
+							sum.FailKey("harness", "conc:call-not-atomic",
+								fmt.Sprintf("T%d ran to completion while T%d was paused inside a correlator call (before %v): calls are not critical sections of one mutex, as the model assumes",
+									ord[i], victim, lastOf(res.Trace)), map[string]any{"conc": cc})
+						}
+					}
+					if len(sum.Samples) < 3 {
+						sum.Sample(map[string]any{"program": opsString(threads), "victim": victim, "pause_before_lock_index": k, "victim_lock_trace": res.Trace})
+					}
+				}
+				if stop {
+					break
+				}
+			}
+		}
+	}
+	sum.CaseFiles = nil
+	sum.Write(out)
+}
+
+func lastOf(t []string) string {
+	if len(t) == 0 {
+		return "?"
+	}
+	return t[len(t)-1]
+}
+
+func replayConc(cc concCase) int {
+	seqSet, err := sequentialOutcomes(cc.Threads)
+	if err != nil {
+		fmt.Println("harness error:", err)
+		return 2
+	}
+	res, err := runConc(cc)
+	if err != nil {
+		fmt.Println("harness error:", err)
+		return 2
+	}
+	if res.Hung {
+		fmt.Println("REPRODUCED conc:deadlock")
+		return 1
+	}
+	if !seqSet[res.Outcome.key()] {
+		fmt.Printf("REPRODUCED conc:not-linearizable: %s: outcome %s equals no sequential ordering's outcome\n", opsString(cc.Threads), res.Outcome.key())
+		return 1
+	}
+	fmt.Println("not reproduced")
+	return 0
+}
+
+var _ = sort.Strings
+var _ = os.Exit
